@@ -1925,3 +1925,111 @@ def c16(ctx):
                         if txt.count('"e":"Response"') >= 2 or '"close":true' in run[0] or '"stall"' in run[0] or '"malformed":true' in run[0]:
                             ctx.nontrivial.add(hash(txt))
                             ctx.add_sample([json.loads(x) for x in run[:12]])
+
+
+# ---------------------------------------------------------------------------
+# C18: HTTP proxy
+
+def rand_proxy_program(rng):
+    ncl = rng.choice([1, 1, 2, 3])
+    clients = []
+    t = 10
+    for i in range(1, ncl + 1):
+        kind = rng.choice(["lit4", "lit4", "name", "lit6", "name6", "refuse", "badname", "defaultport", "mixed-bad"])
+        n = rng.randint(1, 4)
+        reqs = []
+        for k in range(n):
+            r = {"host": kind if kind in ("lit4", "name", "lit6", "name6") else "lit4", "port": 8080,
+                 "hosthdr": rng.random() < 0.5, "method": rng.choice(["GET", "GET", "POST", "HEAD"])}
+            if kind == "refuse":
+                r["port"] = 8081
+            elif kind == "badname":
+                r["host"] = "badname"
+            elif kind == "defaultport":
+                r["port"] = 0
+            reqs.append(r)
+        if kind == "mixed-bad":
+            # a request that is malformed or not in absolute form, as the first request of the connection (after
+            # good pipelined ones the immediate close would race with their responses: left open by the statement)
+            reqs[0]["form"] = rng.choice(["origin", "malformed"])
+        cuts = [[rng.choice([1, 3, 20, 70, 85, 86, 87, 200]), rng.choice([0, 0, 50000, 200000])] for _ in range(rng.randint(0, 5))]
+        clients.append({"id": i, "connect_at": t, "reqs": reqs, "cuts": cuts, "close_after": True, "close_delay": 2000000})
+        t += 4000000
+    prog = {"clients": clients}
+    if rng.random() < 0.25:
+        prog["stop_at"] = t + 1000000
+        if ncl < 3:
+            clients.append({"id": ncl + 1, "connect_at": t + 2000000, "reqs": [{"host": "lit4", "port": 8080}], "cuts": [],
+                            "close_after": True, "close_delay": 100000})
+    return prog
+
+
+def proxy_cut_sweep(path):
+    n = 0
+    with open(path, "w") as f:
+        for host in ("lit4", "name"):
+            reqs = [{"host": host, "port": 8080}, {"host": host, "port": 8080, "hosthdr": True}]
+            for pos in range(1, 160):
+                for gap in (0, 200000):
+                    f.write(json.dumps({"clients": [{"id": 1, "connect_at": 10, "reqs": reqs, "cuts": [[pos, 0], [1, gap], [2, 0]],
+                                                     "close_after": True, "close_delay": 2000000}]}) + "\n")
+                    n += 1
+    return n
+
+
+@check("C18", "model_checking")
+def c18(ctx):
+    import random
+    q = ctx.tier == "quick"
+    ctx.rule = ("request sequences through the proxy (literal IPv4 / bracketed IPv6 / named hosts, explicit and default port, "
+                "with and without Host header, GET/POST/HEAD, pipelined to one origin, refusing and unresolvable origins, a "
+                "non-absolute or malformed request in the middle), 1-3 successive clients, stop() at the end; the client byte "
+                "stream cut at every single offset of a 2-request stream (literal and named host, with and without a pause) and "
+                "at random; a scripted origin server (harness code) logs what it receives and answers with bodies that name the "
+                "request; TLC validates origin-side requests (origin form, method, headers, Host) and client-side responses "
+                "(order, 503s, closes) against HttpProxy.tla; non-trivial = run with >= 2 forwarded requests or a 503/close; "
+                "distinct by trace")
+    ctx.assumptions = ["ports below 1024 cannot be bound in the simulator, so the default port 80 is observable only as a 503 "
+                       "(nobody listens there); a bracketed IPv6 literal WITHOUT a port is therefore indistinguishable from a "
+                       "correct default-port attempt and is not generated as a success case",
+                       "all requests of one client connection go to one origin (the proxy supports a single upstream)"]
+    vlib.tlc_mc(ctx, "MCHttpProxy.tla", "MC_HttpProxy.cfg", timeout=600)
+    rng = random.Random(ctx.seed)
+    f2 = ctx.path("px_sweep.ndjson")
+    proxy_cut_sweep(f2)
+    f3 = ctx.path("px_rand.ndjson")
+    with open(f3, "w") as f:
+        for _ in range(500 if q else 15000):
+            f.write(json.dumps(rand_proxy_program(rng)) + "\n")
+    ctx.exhaustive = True
+    for f in (f2, f3):
+        res, total, chunks = vlib.replay(ctx, "record-proxy", f, keep=True, env={"VH_WALL_LIMIT": "900"})
+        bad = [r for r in res if not r.get("ok")]
+        cases = vlib.read_lines(f, [r["i"] for r in bad[:50]])
+        for r in bad:
+            ctx.violation("proxy." + r["sig"], r.get("msg", ""), cases.get(r["i"], {"index": r["i"]}), {"subcmd": "record-proxy"})
+        ctx.evaluations += len(res)
+        traces = [c + ".trace" for c in chunks if os.path.exists(c + ".trace")]
+        out = vlib.validate_traces(ctx, "TraceHttpProxy.tla", "Trace_HttpProxy.cfg", traces)
+        for (nruns, nev, rejected), tp in zip(out, traces):
+            ctx.traces += nruns
+            for rj in rejected:
+                try:
+                    e = json.loads(rj["event"])
+                except ValueError:
+                    e = {"e": "end"}
+                sig = {"OriginRecv": "proxy.origin-request(form/method/headers/order)", "ClientResp": "proxy.client-response(status=%s)" % e.get("status"),
+                       "End": "proxy.quiescent(request-unanswered-or-not-closed)", "ClientEof": "proxy.connection-closed-unexpectedly"}.get(e.get("e"), "proxy.reject@%s" % e.get("e"))
+                ctx.violation(sig, "trace rejected at event %d: %s | %s" % (rj["at"], rj["event"][:300], rj.get("state")),
+                              {"trace": rj["lines"][:300]}, {"kind": "trace", "module": "TraceHttpProxy.tla"})
+            with open(tp) as fh:
+                run = []
+                for line in fh:
+                    if line.startswith('{"e":"Cfg"'):
+                        run = []
+                    run.append(line)
+                    if line.startswith('{"e":"End'):
+                        txt = "".join(run)
+                        if txt.count('"e":"OriginRecv"') >= 2 or '"status":503' in txt or '"form":"origin"' in run[0] or '"form":"malformed"' in run[0]:
+                            ctx.nontrivial.add(hash(txt))
+                            ctx.add_sample([json.loads(x) for x in run[:12]])
